@@ -70,7 +70,7 @@ func main() {
 	}
 	o := outT{LoadSec: loadSec, Attrs: map[string]map[string]string{}}
 	for _, h := range l.Harnesses {
-		if *prop != "" && h.Attrs["prop"] != *prop {
+		if *prop != "" && !hasProp(h.Attrs["prop"], *prop) {
 			continue
 		}
 		if *only != "" && !strings.Contains(h.Name, *only) {
@@ -116,4 +116,13 @@ func main() {
 	} else {
 		os.Stdout.Write(b)
 	}
+}
+
+func hasProp(list, p string) bool {
+	for _, x := range strings.Split(list, ",") {
+		if x == p {
+			return true
+		}
+	}
+	return false
 }
